@@ -61,11 +61,13 @@ type scCase struct {
 	Code             uint64
 	At               time.Duration // when the cause strikes, relative to the end of the set-up (or dial start)
 	PeerTalks        bool          // the peer of a closed endpoint keeps sending
+	Dg               [2]bool       // Config.EnableDatagrams of client, server (SendDatagram is gated on the PEER's flag, ReceiveDatagram on the own one)
+	Flood            [2]bool       // the side calls SendDatagram 60 times right before the cause: the 32-slot send queue is full, a caller is parked in it
 }
 
 func (c scCase) String() string {
-	return fmt.Sprintf("cause=%s timing=%s blocked(c)=%v blocked(s)=%v accept=%d dropclose=%d rtt=%v idle(c/s)=%v/%v ka(c/s)=%v/%v client=%s code=%d at=%v peertalks=%v seed=%d",
-		c.Cause, c.Timing, c.Blocked[0], c.Blocked[1], c.Accept, c.DropClose, c.RTT, c.CliIdle, c.SrvIdle, c.CliKA, c.SrvKA, c.Client, c.Code, c.At, c.PeerTalks, c.Seed)
+	return fmt.Sprintf("cause=%s timing=%s blocked(c)=%v blocked(s)=%v accept=%d dropclose=%d rtt=%v idle(c/s)=%v/%v ka(c/s)=%v/%v client=%s code=%d at=%v peertalks=%v datagrams(c/s)=%v/%v sendflood(c/s)=%v/%v seed=%d",
+		c.Cause, c.Timing, c.Blocked[0], c.Blocked[1], c.Accept, c.DropClose, c.RTT, c.CliIdle, c.SrvIdle, c.CliKA, c.SrvKA, c.Client, c.Code, c.At, c.PeerTalks, c.Dg[0], c.Dg[1], c.Flood[0], c.Flood[1], c.Seed)
 }
 
 func genSimCloseCase(r *u.Rng) scCase {
@@ -159,6 +161,32 @@ func genSimCloseCase(r *u.Rng) scCase {
 	default:
 		c.Code = uint64(r.Intn(1 << 20))
 	}
+	switch r.Intn(4) {
+	case 0, 1:
+		c.Dg = [2]bool{true, true}
+	case 2:
+		c.Dg = [2]bool{false, true} // the client only sends datagrams
+	default:
+		c.Dg = [2]bool{true, false} // the server only sends datagrams
+	}
+	c.Flood = [2]bool{r.Chance(1, 2), r.Chance(1, 2)}
+	return scNormalize(c)
+}
+
+// scNormalize applies the constraints between the datagram options and the rest of the case.
+func scNormalize(c scCase) scCase {
+	if c.Client != "plain" && c.Client != "unil" {
+		// a parrot advertises datagram support from its spec whatever the configuration says (C12's subject)
+		c.Dg[0] = true
+	}
+	switch c.Cause {
+	case "cli-close", "srv-close", "transport-error", "idle", "cli-transport-close", "srv-transport-close", "stateless-reset":
+	default:
+		c.Flood = [2]bool{} // (the flood is traffic: it would change what the silent scenarios are about)
+	}
+	if c.Timing == "handshake" {
+		c.Flood = [2]bool{}
+	}
 	return c
 }
 
@@ -240,10 +268,10 @@ func runOneSimClose(c scCase) (fails []monFail, info string) {
 	note := func(s string) { fmu.Lock(); notes = append(notes, s); fmu.Unlock() }
 	err := inBubble(func() {
 		resetKey := quic.StatelessResetKey{1, 2, 3, 4, 5, 6, 7, 8, 9}
-		srvConf := &quic.Config{EnableDatagrams: true, MaxIdleTimeout: c.SrvIdle, KeepAlivePeriod: c.SrvKA,
+		srvConf := &quic.Config{EnableDatagrams: c.Dg[1], MaxIdleTimeout: c.SrvIdle, KeepAlivePeriod: c.SrvKA,
 			InitialStreamReceiveWindow: 16384, MaxStreamReceiveWindow: 16384, InitialConnectionReceiveWindow: 1 << 20, MaxConnectionReceiveWindow: 1 << 20,
 			MaxIncomingStreams: int64(2 + max(1, cnt(c.Blocked[0], "Read"), cnt(c.Blocked[1], "Read"))), MaxIncomingUniStreams: 1}
-		cliConf := &quic.Config{EnableDatagrams: true, MaxIdleTimeout: c.CliIdle, KeepAlivePeriod: c.CliKA,
+		cliConf := &quic.Config{EnableDatagrams: c.Dg[0], MaxIdleTimeout: c.CliIdle, KeepAlivePeriod: c.CliKA,
 			InitialStreamReceiveWindow: 16384, MaxStreamReceiveWindow: 16384, InitialConnectionReceiveWindow: 1 << 20, MaxConnectionReceiveWindow: 1 << 20,
 			MaxIncomingStreams: -1, MaxIncomingUniStreams: -1}
 		o := simOpts{RTT: c.RTT, ServerConf: srvConf, ClientConf: cliConf,
@@ -577,7 +605,7 @@ func runOneSimClose(c scCase) (fails []monFail, info string) {
 					sd.park("OpenUniStreamSync", func() (int, error) { _, err := sd.conn.OpenUniStreamSync(ctx); return 0, err })
 				}
 			}
-			for k := 0; k < cnt(bl, "ReceiveDatagram"); k++ {
+			for k := 0; k < cnt(bl, "ReceiveDatagram") && c.Dg[i]; k++ { // (without the own flag ReceiveDatagram refuses right away)
 				sd.park("ReceiveDatagram", func() (int, error) { _, err := sd.conn.ReceiveDatagram(ctx); return 0, err })
 			}
 		}
@@ -622,6 +650,34 @@ func runOneSimClose(c scCase) (fails []monFail, info string) {
 		minNegot := min(negot[0], negot[1])
 		time.Sleep(min(c.At, minNegot/4))
 		synctest.Wait()
+
+		// ---- SendDatagram callers parked on the full send queue: 60 datagrams at this instant are more than the pacer's
+		// burst plus the 32 slots of the queue
+		for i, sd := range sides {
+			if !c.Flood[i] || !dgOK[i] {
+				continue
+			}
+			conn := conns[i]
+			fl := sd.park("SendDatagram", func() (int, error) {
+				for k := 0; k < 60; k++ {
+					if err := conn.SendDatagram(make([]byte, 1000)); err != nil {
+						return k, err
+					}
+				}
+				return 60, nil
+			})
+			synctest.Wait()
+			sd.mu.Lock()
+			if fl.done {
+				note("not-parked:" + sd.name + ".SendDatagram")
+				sd.calls = sd.calls[:len(sd.calls)-1]
+			} else if c.Dg[i] {
+				note("send-queue-full:" + sd.name)
+			} else {
+				note("send-queue-full-send-only:" + sd.name)
+			}
+			sd.mu.Unlock()
+		}
 
 		// ---- the cause
 		tc := time.Since(e.Start)
@@ -837,18 +893,18 @@ func runOneSimClose(c scCase) (fails []monFail, info string) {
 					fail("simclose/unblock/"+cl.name, fmt.Sprintf("%s: %d of %d goroutines parked in %s still parked %v after the connection closed with %v", sd.name, stuck, total, cl.name, tEnd-doneAt[i], cause))
 					continue
 				}
-				if (first == 0 || cl.at < first) && !(cl.name == "ReceiveDatagram" && cl.err == nil) {
+				if (first == 0 || cl.at < first) && !((cl.name == "ReceiveDatagram" || cl.name == "SendDatagram") && cl.err == nil) {
 					first = cl.at
 				}
-				if cl.name == "ReceiveDatagram" && cl.err == nil {
-					continue // it was handed a datagram: its own result
+				if (cl.name == "ReceiveDatagram" || cl.name == "SendDatagram") && cl.err == nil {
+					continue // it was handed a datagram / all its datagrams were queued before the close: its own result
 				}
 				if !sameCause(cl.err, cause) {
 					fail("simclose/cause/"+cl.name, fmt.Sprintf("%s %s returned %q (n=%d), recorded cause %q", sd.name, cl.name, cl.err, cl.n, cause))
 				}
 			}
 			for _, cl := range sd.calls {
-				if cl.name == "ReceiveDatagram" && cl.err == nil {
+				if (cl.name == "ReceiveDatagram" || cl.name == "SendDatagram") && cl.err == nil {
 					continue
 				}
 				if cl.done && cl.name != "Accept" && cl.at != first {
@@ -888,8 +944,8 @@ func runOneSimClose(c scCase) (fails []monFail, info string) {
 				if (lc.name == "Read" && has(c.Blocked[i], "Read")) || (lc.name == "Write" && has(c.Blocked[i], "Write")) {
 					// (fine as well, but keep one goroutine per stream direction)
 				}
-				if lc.name == "SendDatagram" && !dgOK[i] {
-					continue
+				if (lc.name == "SendDatagram" && !dgOK[i]) || (lc.name == "ReceiveDatagram" && !c.Dg[i]) {
+					continue // refused for lack of support (the call's own precondition), whatever the state of the connection
 				}
 				res := make(chan error, 1)
 				go func() { res <- lc.f() }()
@@ -979,6 +1035,11 @@ func runOneSimClose(c scCase) (fails []monFail, info string) {
 					eMax, arrivalsMax := expected(true)
 					if eMin > eMax {
 						eMin, eMax = eMax, eMin
+					}
+					if c.Flood[1-i] {
+						// a burst of arrivals at one instant can overflow the transport's 4-slot queue for the copies
+						// ("sending CONNECTION_CLOSE copies is best effort anyway"): only the upper bound holds
+						eMin = 0
 					}
 					// (beyond the closing period a server with a reset key answers with stateless resets)
 					var inPeriod []dgram
@@ -1107,6 +1168,9 @@ func runSimClose(w *bufio.Writer, seed uint64, n int, args []string) {
 		stop()
 		dist["cause="+c.Cause+"/"+c.Timing]++
 		dist["client="+c.Client]++
+		dist["SendDatagram parked on the full queue at the cause"] += strings.Count(info, "send-queue-full:")
+		dist["SendDatagram parked on the full queue at the cause, own EnableDatagrams=false"] += strings.Count(info, "send-queue-full-send-only:")
+		dist[fmt.Sprintf("datagrams(c/s)=%v/%v", c.Dg[0], c.Dg[1])]++
 		if strings.Contains(info, "handshake-won") {
 			dist["handshake-won-the-race"]++
 		}
@@ -1165,5 +1229,5 @@ func fixupCase(c scCase) scCase {
 	if !(c.Cause == "cli-close" || c.Cause == "srv-close" || c.Cause == "transport-error") {
 		c.DropClose = 0
 	}
-	return c
+	return scNormalize(c)
 }
